@@ -168,9 +168,8 @@ func (st *verifSpecTree) expected(dir string) (map[string]verifExp, bool) {
 		if strings.HasPrefix(name, verifWh) {
 			tgt := name[len(verifWh):]
 			if tgt == "" || tgt == "." || tgt == ".." || strings.HasPrefix(tgt, verifWh) || (dir == "" && verifHiddenRoot(tgt)) {
-				// not the name of anything a lower layer can hold: the property's clauses contradict
-				// each other here (translate vs never show such a name); the oracle below only insists
-				// that nothing invalid or hidden is listed and that listing and lookup agree
+				// not the name of anything a lower layer can hold, and a name Lookup never resolves:
+				// such a whiteout must not be listed (hidden names never appear, listing and lookup agree)
 				continue
 			}
 			if !real(tgt) {
@@ -524,19 +523,7 @@ func (h *verifC07) emitNode(lr *verifLayerRun, key string, n *node, isRoot bool)
 	return true
 }
 
-// verifCandidateSigs are the signatures of the labelled stream (defects of the current code on inputs
-// only that stream generates).  The main stream never produces such inputs, so there the same
-// observation is a different, unexpected failure.
-var verifCandidateSigs = map[string]bool{
-	"whiteout-of-dotwh-name-listed-not-lookupable":       true,
-	"whiteout-of-landmark-listed-in-root-not-lookupable": true,
-	"whiteout-with-empty-or-dot-target-listed":           true,
-}
-
 func (h *verifC07) fail(sig, what string) {
-	if !h.findings && verifCandidateSigs[sig] {
-		sig += "-unexpected"
-	}
 	h.out.Fail(sig, what)
 }
 
@@ -574,6 +561,9 @@ func (h *verifC07) exploreDir(lr *verifLayerRun, job verifDirJob) []verifDirJob 
 		if rnd.Intn(2) == 0 || isRoot {
 			probeSet[s] = true
 		}
+	}
+	if raw[verifWh] != nil {
+		probeSet[""] = true // never sent by the kernel; compared with the model only
 	}
 	var probes []string
 	for p := range probeSet {
@@ -706,7 +696,7 @@ func (h *verifC07) exploreDir(lr *verifLayerRun, job verifDirJob) []verifDirJob 
 		if !r.ok && r.errno != syscall.ENOENT {
 			h.fail("lookup-errno", w+fmt.Sprintf(": errno %d", int(r.errno)))
 		}
-		if prev, ok := lastLookup[name]; ok && prev.stable() != r.stable() {
+		if prev, ok := lastLookup[name]; ok && name != "" && prev.stable() != r.stable() {
 			h.fail("lookup-unstable", w+fmt.Sprintf(": answered %s, earlier %s", r.stable(), prev.stable()))
 		}
 		lastLookup[name] = r
@@ -1229,7 +1219,7 @@ func (h *verifC07) genXattrs() map[string]string {
 
 type verifGenOpts struct {
 	stack    bool // explicit parent directories only, domain of the composition oracle
-	findings bool // labelled stream: whiteouts of .wh. names / of landmark names in the root / of "", ".", ".."
+	findings bool // always add a whiteout of a .wh. name / of a landmark name in the root / of "", ".", ".."
 }
 
 // genLayer generates one source tar.  `lower` is the root filesystem below (nil for a single layer).
@@ -1362,7 +1352,7 @@ func (h *verifC07) genLayer(lower map[string]verifRef, o verifGenOpts) []verifEn
 			}
 		}
 	}
-	if o.findings {
+	if o.findings || rnd.Intn(8) == 0 { // whiteouts whose target can never be looked up (repaired by 545b9cc)
 		dir := pickDir()
 		switch rnd.Intn(4) {
 		case 0:
@@ -1614,8 +1604,19 @@ func (h *verifC07) runSingle(spec []verifEnt, label string) {
 		size = 0
 	}
 	var prio []string
+	explicit := map[string]bool{"": true}
 	for _, e := range spec {
-		if d, n := verifParent(e.path); e.kind == 'f' && !strings.HasPrefix(n, verifWh) && !(d == "" && verifHiddenRoot(n)) && rnd.Intn(6) == 0 {
+		if e.kind == 'd' {
+			explicit[e.path] = true
+		}
+	}
+	for _, e := range spec {
+		d, n := verifParent(e.path)
+		ok := e.kind == 'f' && !strings.HasPrefix(n, verifWh) && !(d == "" && verifHiddenRoot(n))
+		for a := d; ok && a != ""; a, _ = verifParent(a) {
+			ok = explicit[a] // the builder's prioritized-file sort needs every parent directory as a tar entry
+		}
+		if ok && rnd.Intn(6) == 0 {
 			prio = append(prio, e.path)
 		}
 	}
@@ -1716,9 +1717,9 @@ func TestVerifC07(t *testing.T) {
 	verifC07Run(t, "memory", memorymetadata.NewReader, false)
 }
 
-// TestVerifC07Findings — labelled stream: whiteouts whose target begins with ".wh.", is a landmark
-// name in the root, or is "", "." or "..".  The same oracle runs; its failures carry the signatures of
-// the candidate findings.
+// TestVerifC07Findings — regression stream for the defects repaired by 545b9cc: whiteouts whose target
+// begins with ".wh.", is a landmark name in the root, or is "", "." or "..".  The same oracle runs: such
+// whiteouts must not be listed, and listed <=> lookupable must hold.
 func TestVerifC07Findings(t *testing.T) {
 	verifC07Run(t, "memory", memorymetadata.NewReader, true)
 }
